@@ -244,6 +244,22 @@ pub fn judge_texts(fault_text: &str, twin_text: &str) -> Judged {
     Judged { fail, control_ok, fault_outcome, fault_text: fault_text.to_string() }
 }
 
+/// `name` occurs in `text` as a whole identifier
+fn mentions(text: &str, name: &str) -> bool {
+    let mut from = 0;
+    while let Some(p) = text[from..].find(name) {
+        let s = from + p;
+        let e = s + name.len();
+        let before_ok = s == 0 || !text[..s].chars().last().map(|c| c.is_alphanumeric() || c == '_').unwrap_or(false);
+        let after_ok = e >= text.len() || !text[e..].chars().next().map(|c| c.is_alphanumeric() || c == '_').unwrap_or(false);
+        if before_ok && after_ok {
+            return true;
+        }
+        from = e;
+    }
+    false
+}
+
 pub fn run_faults(run: &mut Run, snips: &[Snip], prelude: fn() -> Vec<Top>, depth: usize, engine: &'static str,
                   path_filter: &(dyn Fn(&Snip, &[usize]) -> bool + Sync),
                   preds: &(dyn Fn(&Snip, &Case) -> Vec<String> + Sync)) {
@@ -251,7 +267,16 @@ pub fn run_faults(run: &mut Run, snips: &[Snip], prelude: fn() -> Vec<Top>, dept
     let stop = AtomicBool::new(false);
     let _ = &stop;
     let accs = crate::pool::par_items(&cases, 64, |_| Stats::new(), |acc, i, c| {
-        let prelude = prelude();
+        let mut prelude = prelude();
+        // helper definitions (raw tops) that the snippet does not mention are left out
+        let sn0 = &snips[c.snip];
+        prelude.retain(|t| match t {
+            Top::Raw(text) => {
+                let name = text.split(" ::").next().unwrap_or("");
+                mentions(&sn0.fault, name) || mentions(&sn0.twin, name) || (name.starts_with("hop") && !name.starts_with("hop2_") && mentions(&sn0.fault, &format!("hop2_{}", &name[3..])))
+            }
+            _ => true,
+        });
         let (fp, tp) = programs(snips, &prelude, c);
         let ft = print_program(&fp).text;
         let tt = print_program(&tp).text;
@@ -297,9 +322,84 @@ pub fn run_faults(run: &mut Run, snips: &[Snip], prelude: fn() -> Vec<Top>, dept
         "expression_contexts": EXPR_CTXS.iter().map(|c| c.name).collect::<Vec<_>>(), "snippets": snips.iter().map(|s| s.id.to_string()).collect::<Vec<_>>(), "cases": cases.len()});
 }
 
+/// operator mismatches between two literals: (id, operator, left, right, well-typed left, well-typed right)
+const OP_MISMATCHES: &[(&str, &str, &str, &str, &str, &str)] = &[
+    ("int+str", "+", "1", "\"a\"", "1", "2"),
+    ("str+int", "+", "\"a\"", "1", "\"a\"", "\"b\""),
+    ("str-str", "-", "\"a\"", "\"b\"", "3", "2"),
+    ("str*str", "*", "\"a\"", "\"b\"", "3", "2"),
+    ("int*float", "*", "2", "1.5", "2", "3"),
+    ("int/str", "/", "1", "\"a\"", "1", "2"),
+    ("int==float", "==", "1", "1.0", "1", "1"),
+    ("int!=str", "!=", "1", "\"a\"", "1", "2"),
+    ("int<str", "<", "1", "\"a\"", "1", "2"),
+    ("bool<bool", "<", "true", "false", "1", "2"),
+    ("int-and-bool", "and", "1", "true", "false", "true"),
+    ("bool-or-str", "or", "true", "\"a\"", "true", "false"),
+];
+const UN_MISMATCHES: &[(&str, &str, &str, &str)] = &[("not-int", "not ", "1", "true"), ("neg-str", "-", "\"a\"", "1"), ("neg-bool", "-", "true", "1")];
+
+/// the hand-written snippets plus, for every operator mismatch, the same mismatch reached through one hop that the
+/// checker has to infer through: an untyped helper function (literal and variable arguments), two variables, the
+/// elements of a tuple, a local untyped closure, the generic identity; and mismatches between the instances of one
+/// named generic (`*T` in two parameters, in a parameter and the result, inside a function-typed parameter)
+pub fn c03_snips() -> Vec<Snip> {
+    let mut out: Vec<Snip> = C03_SNIPS.to_vec();
+    for (j, (id, op, l, r, ol, or)) in OP_MISMATCHES.iter().enumerate() {
+        let e_any = |id: String, f: String, t: String| Snip::owned(id, Kind::E("any"), f, t);
+        let stm = |id: String, f: String, t: String| Snip::owned(id, Kind::S, f, t);
+        out.push(e_any(format!("{}:via-untyped-fn", id), format!("hop{}({}, {})", j, l, r), format!("hop{}({}, {})", j, ol, or)));
+        out.push(stm(format!("{}:via-untyped-fn-variables", id), format!("vl := {}\nvr := {}\nprint(hop{}(vl, vr))", l, r, j), format!("vl := {}\nvr := {}\nprint(hop{}(vl, vr))", ol, or, j)));
+        out.push(stm(format!("{}:via-untyped-fn-constants", id), format!("vl :: {}\nvr :: {}\nprint(hop{}(vl, vr))", l, r, j), format!("vl :: {}\nvr :: {}\nprint(hop{}(vl, vr))", ol, or, j)));
+        out.push(stm(format!("{}:via-variables", id), format!("vl := {}\nvr := {}\nprint(vl {} vr)", l, r, op), format!("vl := {}\nvr := {}\nprint(vl {} vr)", ol, or, op)));
+        out.push(stm(format!("{}:via-tuple-elements", id), format!("tt := ({}, {})\nprint(tt[0] {} tt[1])", l, r, op), format!("tt := ({}, {})\nprint(tt[0] {} tt[1])", ol, or, op)));
+        out.push(stm(format!("{}:via-local-closure", id), format!("hh :: fn a, b ->\n a {} b\n end\nprint(hh({}, {}))", op, l, r), format!("hh :: fn a, b ->\n a {} b\n end\nprint(hh({}, {}))", op, ol, or)));
+        out.push(stm(format!("{}:via-local-closure-variables", id), format!("hh :: fn a, b ->\n a {} b\n end\nvl := {}\nvr := {}\nprint(hh(vl, vr))", op, l, r), format!("hh :: fn a, b ->\n a {} b\n end\nvl := {}\nvr := {}\nprint(hh(vl, vr))", op, ol, or)));
+        out.push(e_any(format!("{}:via-generic-identity", id), format!("(ident({}) {} {})", l, op, r), format!("(ident({}) {} {})", ol, op, or)));
+        out.push(stm(format!("{}:via-two-hops", id), format!("vl := {}\nvr := {}\nprint(hop2_{}(vl, vr))", l, r, j), format!("vl := {}\nvr := {}\nprint(hop2_{}(vl, vr))", ol, or, j)));
+    }
+    for (j, (id, op, x, ok)) in UN_MISMATCHES.iter().enumerate() {
+        out.push(Snip::owned(format!("{}:via-untyped-fn", id), Kind::E("any"), format!("uop{}({})", j, x), format!("uop{}({})", j, ok)));
+        out.push(Snip::owned(format!("{}:via-untyped-fn-variable", id), Kind::S, format!("vl := {}\nprint(uop{}(vl))", x, j), format!("vl := {}\nprint(uop{}(vl))", ok, j)));
+        out.push(Snip::owned(format!("{}:via-variable", id), Kind::S, format!("vl := {}\nprint({}vl)", x, op), format!("vl := {}\nprint({}vl)", ok, op)));
+    }
+    let g = |id: &str, kind: Kind, f: &str, t: &str| Snip::owned(format!("generic:{}", id), kind, f.to_string(), t.to_string());
+    out.push(g("pick-mixed", Kind::E("any"), "pick(1, \"two\")", "pick(1, 2)"));
+    out.push(g("pick-mixed-lists", Kind::E("any"), "pick([1], [\"a\"])", "pick([1], [2])"));
+    out.push(g("pick-mixed-variables", Kind::S, "vl := 1\nvr := \"two\"\nprint(pick(vl, vr))", "vl := 1\nvr := 2\nprint(pick(vl, vr))"));
+    out.push(g("pick-result-annotation", Kind::S, "w: int = pick(\"a\", \"b\")", "w: int = pick(1, 2)"));
+    out.push(g("ident-result-annotation", Kind::S, "w: str = ident(1)", "w: str = ident(\"a\")"));
+    out.push(g("ident-result-operand", Kind::E("int"), "(ident(\"a\") + 1)", "(ident(2) + 1)"));
+    out.push(g("apply-parameter-of-callback", Kind::E("any"), "apply(1, shout)", "apply(1, idi)"));
+    out.push(g("apply-result-of-callback", Kind::E("int"), "(apply(\"a\", shout) + 1)", "(apply(1, idi) + 1)"));
+    out.push(g("second-of-tuple", Kind::E("int"), "(second((1, \"a\")) + 1)", "(second((\"a\", 1)) + 1)"));
+    out.push(g("same-elements", Kind::E("any"), "same([1], \"a\")", "same([1], 2)"));
+    out
+}
+
+pub fn c03_prelude() -> Vec<Top> {
+    let mut v = prelude();
+    for (j, (_, op, ..)) in OP_MISMATCHES.iter().enumerate() {
+        v.push(Top::Raw(format!("hop{} :: fn a, b ->\n    a {} b\nend", j, op)));
+        v.push(Top::Raw(format!("hop2_{} :: fn a, b ->\n    hop{}(a, b)\nend", j, j)));
+    }
+    for (j, (_, op, ..)) in UN_MISMATCHES.iter().enumerate() {
+        v.push(Top::Raw(format!("uop{} :: fn a ->\n    {}a\nend", j, op)));
+    }
+    v.push(Top::Raw("pick :: fn a: *T, b: *T -> *T\n    a\nend".into()));
+    v.push(Top::Raw("ident :: fn a: *T -> *T\n    a\nend".into()));
+    v.push(Top::Raw("apply :: fn a: *T, f: fn *T -> *U -> *U\n    f(a)\nend".into()));
+    v.push(Top::Raw("shout :: fn q: str -> str\n    q\nend".into()));
+    v.push(Top::Raw("second :: fn t: (*A, *B) -> *B\n    t[1]\nend".into()));
+    v.push(Top::Raw("same :: fn l: [*T], x: *T -> *T\n    x\nend".into()));
+    v
+}
+
 pub fn run_c03(run: &mut Run) {
     let depth = if run.thorough() { 3 } else { 2 };
-    run_faults(run, C03_SNIPS, prelude, depth, "faults", &|_, _| true, &|sn, c| {
+    let snips = c03_snips();
+    // derived snippets (one inference hop) go one context level less deep than the hand-written ones
+    run_faults(run, &snips, c03_prelude, depth, "faults", &|sn, path| !sn.id.contains(':') || path.len() < depth, &|sn, c| {
         let mut v = vec![format!("snippet:{}", sn.id)];
         if let Some(e) = c.ectx {
             v.push(format!("snippet:{}@{}", sn.id, EXPR_CTXS[e].name));
@@ -308,7 +408,7 @@ pub fn run_c03(run: &mut Run) {
     });
     run.rule = "every fault snippet x every composition of statement contexts up to the depth bound x every placement x every type-compatible expression context; a case counts only if its well-typed twin compiles in the same context; distinct by program text".into();
     run.assumptions = vec![
-        "each snippet is a definite mismatch between literals / declared types (no inference through unannotated hops)".into(),
+        "each snippet is a definite mismatch between literals / declared types, directly or through exactly one (for `via-two-hops`: two) unannotated hop: an untyped helper function, variables, tuple elements, a local closure, the generic identity, instances of one named generic".into(),
         "cases whose control does not compile are not counted (0 on the unchanged tree)".into(),
     ];
 }
